@@ -45,6 +45,9 @@ func (g *genCtx) seqCtor(kind string, prop string) CacheCtor {
 		ct.Ctor = "new"
 	}
 	ct.DefTTL = g.ttlWide(prop)
+	if ct.Ctor == "new" && ct.SetDef && g.r.Bool(0.3) {
+		ct.Twice, ct.DefTTL2 = true, g.ttlWide(prop)
+	}
 	ct.Interval = []int64{-int64(time.Second), -1, 0, 0, 1, 5, 50, int64(time.Microsecond), int64(time.Second), int64(time.Hour)}[g.r.Intn(10)]
 	ct.MinCap = []int{-100, 0, 1, 96, 97, 500}[g.r.Intn(6)]
 	return ct
@@ -79,8 +82,11 @@ func genSeqCache(prop string, seed uint64, tier string, kinds []string) *SeqScen
 	sc.A.Ctor = g.seqCtor(kind, prop)
 	if g.r.Bool(0.6) || prop == "C06" || prop == "C15" {
 		sc.CBKind = 1
-		if (prop == "C06" || prop == "C13") && g.r.Bool(0.35) {
+		if (prop == "C06" || prop == "C13" || prop == "C15") && g.r.Bool(0.35) {
 			sc.CBKind = 2
+		}
+		if prop == "C12" && g.r.Bool(0.4) {
+			sc.CBKind = 4 // observer callbacks: the twins must show them the same cache
 		}
 		sc.A.Ctor.CB = g.r.Bool(0.6)
 	}
@@ -177,7 +183,11 @@ func genSeqCache(prop string, seed uint64, tier string, kinds []string) *SeqScen
 		}
 		for i := 0; i <= ns; i++ {
 			if i == swapAt {
-				sc.Ops = append(sc.Ops, Op{K: CSetCallback, N: g.r.Intn(2)})
+				cbk := g.r.Intn(2)
+				if cbk == 1 && sc.CBKind == 2 {
+					cbk = 2
+				}
+				sc.Ops = append(sc.Ops, Op{K: CSetCallback, N: cbk})
 			}
 			if i == ns {
 				break
@@ -290,9 +300,15 @@ func genSeqCache(prop string, seed uint64, tier string, kinds []string) *SeqScen
 			if cbk == 2 && sc.CBKind != 2 {
 				cbk = 1
 			}
+			if cbk != 0 && sc.CBKind == 4 {
+				cbk = 4
+			}
 			sc.Ops = append(sc.Ops, Op{K: kind, N: cbk})
 		case XBulkInsert:
 			cnt := 20 + g.r.Intn(120)
+			if g.r.Bool(0.08) {
+				cnt = 250 + g.r.Intn(450) // more entries than any internal batch size
+			}
 			sc.Ops = append(sc.Ops, Op{K: XBulkInsert, Key: 7000 + bulk, Val: 300000 + int64(bulk), N: cnt, D: []int64{0, 5, int64(time.Hour)}[g.r.Intn(3)]})
 			bulk += cnt
 			if g.r.Bool(0.5) {
@@ -321,9 +337,13 @@ func genSeqMap(prop string, seed uint64, tier string, kinds []string) *SeqScenar
 		if g.r.Bool(0.05) {
 			// tens of thousands of keys: every grow threshold up to 2^15 buckets,
 			// more counter stripes; few calls so that the run stays affordable
-			bulkMax = 60000
+			bulkMax = 90000
 			maxOps = 25
 		}
+	}
+	if tier != "thorough" && g.r.Bool(0.003) {
+		bulkMax = 90000 // rare in the quick tier: enough keys for 2^15 buckets and every counter-stripe count
+		maxOps = 12
 	}
 	// chains are walked linearly: under forced collisions keep the key count
 	// where a run costs millions of steps, not billions
